@@ -742,6 +742,8 @@ struct Eng<'c> {
     base: Instant,
     now: u64,
     last_wait: Option<u64>,
+    /// whether the monitor also looks through `mut_request_transaction` after every call
+    observe_mut: bool,
     res: RunResult,
     transport: TransportType,
     failed: bool,
@@ -1023,6 +1025,12 @@ impl<'c> Eng<'c> {
             if got != want {
                 self.fail("C18", "peer-address", "StunRequest::peer_address", "", format!("{want:?}"), format!("{got:?}"));
                 return;
+            }
+            // (asking for a mutable handle is itself a call an implementation may react to, e.g. by
+            // dropping cached state: the monitor only does so in every other history, so that what it
+            // observes between two calls of the workload does not depend on the monitor having looked)
+            if !self.observe_mut {
+                continue;
             }
             let gotm = self.agent.mut_request_transaction(tid).map(|r| r.peer_address());
             if gotm != want {
@@ -1864,6 +1872,7 @@ pub fn run_history(ctx: &mut Ctx, h: &History, cfg: &RunCfg) -> RunResult {
         base: base_instant() + Duration::from_millis(cfg.shift_ms),
         now: 0,
         last_wait: None,
+        observe_mut: (h.ops.len() + h.remote0.unwrap_or(0) as usize) % 2 == 0,
         res: RunResult::default(),
         transport,
         failed: false,
